@@ -139,12 +139,19 @@ def run(case, ctx):
     key.update(opt=case["opt"], loss=case["loss"], L=L, B=B, epochs=epochs)
     sink = io.StringIO()
     viols, evals = [], 0
+    extrap = ["not-run"]
+    from_init = False
     _mon.take()
     steps0, moved0 = _mon.steps, _mon.moved
     G = rgroup.hyperoctahedral(D) if D == 2 else rgroup.conjugacy_class_reps(D)
     try:
         with contextlib.redirect_stdout(sink):
-            model = mlgen.perturb(mlgen.build_model(cfg, case["i"]), rng, 0.1)
+            # every second history starts from the untouched initial parameters (what real training does); the others
+            # from a perturbed point, so that the optimiser also moves parameters that start at special values
+            model = mlgen.build_model(cfg, case["i"])
+            from_init = case["i"] % 2 == 0
+            if not from_init:
+                model = mlgen.perturb(model, rng, 0.1)
             in_sig, out_sig = mlgen.sig_of(cfg["in_sig"]), mlgen.sig_of(cfg["out_sig"])
             stable, reach_out, _ = mlgen.type_flow(cfg)
             X = mlgen.random_multi(rng, in_sig, D, tuple(cfg["N"]), tuple(cfg["torus"]), lead=(L,))
@@ -180,6 +187,26 @@ def run(case, ctx):
                     v["mechanism"] = "after-training-" + v["mechanism"]
                     v["msg"] = f"after {steps} {case['opt']} steps: " + v["msg"]
                     viols.append(v)
+                # the symmetry is structural, so it must hold along the whole ray init -> trained: amplify the
+                # optimiser's displacement (x30) to make a small drift in a non-equivariant direction visible
+                if not viols:
+                    import jax.numpy as jnp
+
+                    def amp(path, a, b):
+                        names = [getattr(q, "name", None) for q in path]
+                        if hasattr(a, "dtype") and jnp.issubdtype(a.dtype, jnp.inexact) and "invariant_filters" not in names:
+                            return a + 30.0 * (b - a)
+                        return b
+
+                    model_amp = jax.tree_util.tree_map_with_path(amp, model, trained)
+                    res2 = c07.check_model(model_amp, cfg, x, G, rng, shifts=False)
+                    evals += 1 + res2["n_events"] * len(G) + len(G)
+                    extrap[0] = res2["status"]
+                    for v in res2["viols"]:
+                        v = dict(v)
+                        v["mechanism"] = "training-direction-" + v["mechanism"]
+                        v["msg"] = f"parameters moved by {steps} {case['opt']} steps, displacement amplified x30: " + v["msg"]
+                        viols.append(v)
     except Exception as e:
         import traceback
 
@@ -188,7 +215,7 @@ def run(case, ctx):
     nontrivial = steps >= 1 and moved >= 1
     return result(key, viols, nontrivial, evals=evals, noise=(res or {}).get("noise", 0.0) if "res" in dir() and res else 0.0,
                   obs={"train_steps_monitored": steps, "steps_with_moved_parameters": moved, "histories": 1},
-                  hist={"cls": cfg["cls"], "D": D, "opt": case["opt"], "loss": case["loss"], "norm": cfg["norm"], "epochs": epochs, "bank_ratio": [round(r, 5) for r in _mon.ratios[-1:]]},
+                  hist={"cls": cfg["cls"], "D": D, "opt": case["opt"], "loss": case["loss"], "norm": cfg["norm"], "epochs": epochs, "start": "init" if from_init else "perturbed", "extrapolated_model": extrap[0], "bank_ratio": [round(r, 5) for r in _mon.ratios[-1:]]},
                   sample={"cfg": key, "steps": steps, "bank_ratio_last": _mon.ratios[-1] if _mon.ratios else None})
 
 
